@@ -20,7 +20,7 @@ RULE = ('Averager: 2-3 clients doing add(v)/get()/pop() (v small integers as flo
         'preemption inside an operation + distinct (count, seconds, pattern, callers) throttle cells')
 DISTINCT = ('averager_schedules', 'throttle_cells', 'throttle_schedules')
 REQUIRED = ('averager_schedules_checked', 'averager_pops', 'averager_free_runs', 'throttle_runs', 'throttle_calls_started',
-            'throttle_sleeps', 'throttle_concurrent_runs')
+            'throttle_sleeps', 'throttle_concurrent_runs', 'throttle_runs_named_falsy', 'throttle_runs_named_derived')
 ASSUMPTIONS = ('throttle is driven through its own time_func/sleep_func parameters; virtual sleep blocks the caller '
                'until virtual time reaches the wake-up', 'liveness is restated as bounded progress (virtual seconds and '
                'loop iterations)')
@@ -56,10 +56,11 @@ def averager_schedule(dc, sc, res, rng, label):
     sch = Sched(rng, clock, strategy=rng.choice(['random', 'preempt', 'random', 'ops']),
                 preempt_points={rng.randrange(0, 150) for _ in range(3)})
     rec = Recorder(sch)
+    ave_key = rng.choice(['latency', 'latency', '', 0, ('avg', 1)])       # the tally lives under any cache key
 
     def client(ci):
         def run():
-            ave = dc.Averager(caches[ci], 'latency')
+            ave = dc.Averager(caches[ci], ave_key)
             for i in range(rng.randrange(2, 6)):
                 op = rng.choice(['add', 'add', 'add', 'get', 'pop'])
                 if op == 'add':
@@ -87,7 +88,7 @@ def averager_schedule(dc, sc, res, rng, label):
         fresh = dc.Cache(d) if topo != 'fanout' else base
         t = sch.tick + 5
         ops.append({'client': 99, 'op': 'get', 'args': (), 'kw': {}, 'call': t, 'ret': t + 1, 'kind': 'ok',
-                    'result': dc.Averager(fresh, 'latency').get()})
+                    'result': dc.Averager(fresh, ave_key).get()})
         if fresh is not base:
             fresh.close()
         res.count('averager_pops', sum(1 for o in ops if o['op'] == 'pop'))
@@ -228,14 +229,27 @@ def throttle_run(dc, sc, res, rng, label):
         last[me.cid if me is not None else -1] = v
         return v
 
-    def body():
-        me = sch._me()
-        starts.append(last.get(me.cid if me is not None else -1, clock.now_peek()))
+    def make_body(ci):
+        def body():
+            me = sch._me()
+            starts.append(last.get(me.cid if me is not None else -1, clock.now_peek()))
+        return body
 
-    # the decorator itself stores the initial tally
+    # the decorator itself stores the initial tally.  One bucket for all callers: either every caller throttles its own
+    # function (different qualified names) under one explicit name - any cache key is a legal name, falsy ones too - or
+    # all callers share one function and the name is derived from it
+    bucket = gen.pick(rng, ['work', 'work', '', 0, b'', (), 0.0, False, None, None])
+    shared_body = make_body(-1)
     wrapped = []
     for ci in range(ncallers):
-        wrapped.append(dc.throttle(caches[ci], count, seconds, name='work', time_func=tfunc, sleep_func=vsleep)(body))
+        if bucket is None:
+            body = shared_body
+        else:
+            body = make_body(ci)
+            body.__qualname__ = 'caller_%d.body' % ci
+            body.__name__ = 'body_%d' % ci
+        wrapped.append(dc.throttle(caches[ci], count, seconds, name=bucket, time_func=tfunc, sleep_func=vsleep)(body))
+    res.count('throttle_runs_named_' + ('derived' if bucket is None else 'falsy' if not bucket else 'text'))
     t_start = clock.now_peek()
     ncalls = rng.randrange(3, 9)
 
